@@ -95,6 +95,7 @@ static int32_t do_sync_op(struct jls_wr_s *wr, const Op &o) {
         case OP_UTC: return jls_wr_utc(wr, (uint16_t) o.sig, o.a, o.b);
         case OP_USER: {
             std::vector<uint8_t> data; op_payload(o, data);
+            if (o.en) return jls_wr_user_data(wr, (uint16_t) o.meta, (enum jls_storage_type_e) o.st, nullptr, (uint32_t) std::max<size_t>(1, data.size()));   // documented refusal: "data_size && !data"
             ExactBuf b(data, data.size());
             return jls_wr_user_data(wr, (uint16_t) o.meta, (enum jls_storage_type_e) o.st, b.p, (uint32_t) data.size());
         }
@@ -179,6 +180,7 @@ static int32_t do_twr_op(struct jls_twr_s *wr, const Op &o) {
         }
         case OP_UTC: return jls_twr_utc(wr, (uint16_t) o.sig, o.a, o.b);
         case OP_USER: {
+            if (o.en) return JLS_ERROR_PARAMETER_INVALID;     // NULL-data variant exists for the sync writer only (never generated here; keeps hand-edited plans meaningful)
             std::vector<uint8_t> data; op_payload(o, data);
             ExactBuf b(data, data.size());
             uint32_t dsz = (uint32_t) data.size();
